@@ -189,7 +189,7 @@ def tree_specs(depth=0):
     leaf = st.sampled_from(["method", "method", "method", "permissive"])
     if depth >= 2:
         return st.dictionaries(st.sampled_from(SEGMENTS), leaf, min_size=1, max_size=4)
-    return st.dictionaries(st.sampled_from(SEGMENTS), st.one_of(leaf, leaf, st.deferred(lambda: tree_specs(depth + 1))), min_size=1, max_size=4)
+    return st.dictionaries(st.sampled_from(SEGMENTS), gen.pick(leaf, leaf, st.deferred(lambda: tree_specs(depth + 1))), min_size=1, max_size=4)
 
 
 @st.composite
@@ -474,7 +474,7 @@ def _library_exceptions():
 
 N_LIBRARY = 11
 _LINEBREAKS = "\n\r\x0b\x0c\x1c\x1d\x1e\x85  "
-messages = st.one_of(
+messages = gen.pick(
     st.text(st.characters(blacklist_categories=("Cs",), blacklist_characters=_LINEBREAKS), max_size=20),
     st.sampled_from(["", "bad thing", "é€", "a: b", "Invalid parameters", "takes 2 positional arguments", "{0}", "%s"]),
 )
@@ -482,7 +482,7 @@ messages = st.one_of(
 
 @st.composite
 def exception_cases(draw):
-    return {"exc": draw(st.one_of(st.integers(0, len(EXC_CLASSES) - 1), st.integers(0, len(EXC_CLASSES) - 1),
+    return {"exc": draw(gen.pick(st.integers(0, len(EXC_CLASSES) - 1), st.integers(0, len(EXC_CLASSES) - 1),
                                   st.integers(len(EXC_CLASSES), len(EXC_CLASSES) + N_LIBRARY - 1))), "message": draw(messages),
             "noargs": draw(st.integers(0, 9)) == 0,
             "params": draw(st.sampled_from([[], [1, "x"], {"a": 1}])),
@@ -589,7 +589,7 @@ def oracle_builtin(case):
 # ---------------------------------------------------------------------------
 # 5. translator-rejected payloads -> -32700, nothing invoked
 
-bad_descriptors = st.one_of(
+bad_descriptors = gen.pick(
     st.tuples(st.sampled_from(["", "no_such_module_vf.Klass", "decimal.NoSuchClass", "bad name.X", "a-b.C", "décimal.Decimal", "decimal.Decimal\n", "x/y.Z", "NoLocalClass"]),
               st.sampled_from([[], {}, [1]])).map(list),
     st.tuples(st.sampled_from(["decimal.Decimal"]), st.sampled_from([5, "s", None, True])).map(list),
@@ -618,7 +618,7 @@ def translator_cases(draw):
         req = [{"jsonrpc": "2.0", "id": 2, "method": "echo", "params": [dv]}, good]
     from props.c08 import respell
     # the member name may be spelled with \\uXXXX escapes: the same payload for the parser
-    text = respell(json.dumps(req), draw(st.one_of(st.just(0), st.just(0), st.integers(1, 2 ** 13 - 1))))
+    text = respell(json.dumps(req), draw(gen.pick(st.just(0), st.just(0), st.integers(1, 2 ** 13 - 1))))
     return {"text": text, "version": draw(st.sampled_from([1.0, 2.0])), "place": place, "desc": desc}
 
 
